@@ -30,7 +30,8 @@ def _tree_hash():
                     h.update(fh.read())
     # only what a recorded + validated panel depends on (not the component specs / drivers)
     for rel in ("bv/recorder.py", "bv/gpseams.py", "bv/projection.py", "bv/scenarios.py", "bv/runpanel.py",
-                "bv/tlc.py", "specs/BadsRunTrace.tla", "specs/BadsRules.tla"):
+                "bv/tlc.py", "bv/refine.py", "specs/BadsRunTrace.tla", "specs/BadsRules.tla", "specs/BadsRun.tla",
+                "specs/BadsRunRefine.tla"):
         p = os.path.join(common.VERIF, rel)
         h.update(rel.encode())
         with open(p, "rb") as fh:
@@ -151,7 +152,20 @@ def run_panel(scs, name="panel", procs=None, use_cache=True, tlc_timeout=1200):
         verdicts[v["r"]] = [(e["c"], e["l"] - 1 - offsets[v["r"]]) for e in errs]
     if any(v is None for v in verdicts):
         raise MachineryError("verdict missing for some runs")
+    # ---- direct refinement of the design specification (BadsRun.tla) by each run -------------
+    from . import refine
+    t2 = time.time()
+    rf = refine.refine_runs(scs, [r[1] for r in results])
+    t_ref = time.time() - t2
+    for i, o in enumerate(rf):
+        if o["status"] == "machinery":
+            raise MachineryError("refinement check failed for scenario %s:\n%s" % (scs[i].get("id"), o["detail"]))
+        if o["status"] == "rejected":
+            for cl in refine.clauses_for(scs[i], o):
+                verdicts[i].append((cl, o["orig_index"]))
     res = {
+        "refine": [{k: v for k, v in o.items() if k not in ("detail",)} for o in rf],
+        "t_refine": round(t_ref, 1),
         "verdicts": verdicts,
         "events": [r[1] for r in results],
         "infos": [r[2] for r in results],
